@@ -21,7 +21,9 @@
   `requests` (a request either returns a JSON body, or raises `HTTPError` carrying a status code in
   400..599, or raises `ConnectionError`), `RPCHandler` (forwards one request per call and raises
   what `raise_for_status` raises; `create_job` raises a response-less `HTTPError` on any non-200),
-  server strings are ASCII, results carry no `job_context` (no result mapping), time/progress fields.
+  server strings are ASCII, results carry no `job_context` (no result mapping).
+  Time / progress fields, `Job.name`, `_to_dict` / `_from_dict` / `from_id` and `execute_sync` are
+  modelled on top of this machine in `Model/C17X.lean` (with the theorems that project it back here).
 -/
 import PercevalModel.Found.SM
 
